@@ -269,7 +269,7 @@ Definition tri_unique_min (t : tri) : Prop :=
 (* ------------------------------------------------------------------ *)
 (* the table translate/c04_idioms.py generates: one record per place where
    scheduling order enters a data structure *)
-Inductive site_kind := Combinable | AtomicCursor | AtomicAccumulate | ConcurrentContainer | MutexAppend | TaskGroup | SortImplementation.
+Inductive site_kind := Combinable | AtomicCursor | AtomicAccumulate | ConcurrentContainer | MutexAppend | TaskGroup | SortImplementation | UnionFindRoots.
 
 Inductive normalisation :=
 | StableSortTotalKey        (* stable_sort, comparator separates the records: sort_after_combine *)
